@@ -1,5 +1,6 @@
 import SparseSpace.Lemmas.DimWiseKeep
 import SparseSpace.Lemmas.DimWiseKeepAll
+import SparseSpace.Lemmas.DimWiseKeepMain
 /-!
 # C04c — does the dimension-wise refinement keep the initial sparse-grid space? (rebalancing OFF)
 
@@ -11,6 +12,11 @@ The counterexamples below are kernel-evaluated on the refinement model; each of 
 implementation (`SpatiallyAdaptiveSingleDimensions2`, `rebalancing=False`, `margin=1`, scripted error estimator) with the
 same outcome: the tensor hat `φ_{2,3} ⊗ φ_{2,3} ⊗ φ_{2,3}` (level vector `(2,2,2)` of the initial `(lmin,lmax) = (1,4)`
 index set, exact integral `1/64`, value `1` at `(3/4,3/4,3/4)`) is integrated to `0` and interpolated to `0`.
+
+POSITIVE SIDE (second half of the file): in the complementary class `dim = 2` or `lmax − lmin ≤ 2` the goal is PROVED for every
+history without rebalancing (unbounded number of `refine()` calls): `dimwise_keeps_initial_of_class`,
+`dimwise_keeps_initial_v678`, `dimwise_keeps_initial_v6_dim2`, `dimwise_keeps_initial_v6_span2`, and for version 3 with exact
+rounding `dimwise_keeps_initial_v3_exact`.  The class is sharp: the counterexamples have `dim = 3`, `lmax − lmin = 3`.
 -/
 namespace SparseSpace.C04c
 open SparseSpace
@@ -187,5 +193,132 @@ example : ∃ st, start.run hist68 = some st ∧ ([3, 3, 2] : LV) ∈ st.cs.old 
 theorem witness_not_in_index_set :
     ∃ st, start.run hist68 = some st ∧ ([3, 3, 3] : LV) ∉ st.cs.old ++ st.cs.active := by
   decide +kernel
+
+/-! ## the positive side: (H_keep) holds for EVERY history without rebalancing when `dim = 2` or `lmax − lmin ≤ 2` -/
+
+/-- **the general form**: every configuration of the component grids that satisfies `LoopOK` (proved for the versions 6, 7, 8: `loopOK_678`, and for
+version 3 with a rounding that shares `sv` correctly, e.g. the exact one: `loopOK_3`, `v3Exact_ok`), every start
+configuration with `dim = 2` or `lmax ≤ lmin + 2` (`dim ≥ 1`, `lmin < lmax`, `2 ≤ lmax`, non-degenerate box), every
+history without rebalancing (any number of `refine()` calls, any benefit tables and margins): the history runs through
+and the reached state satisfies C04's (H_keep) — hence (C04 `keepsInitial_integral_exact`, `keepsInitial_interp_exact`)
+the whole initial sparse-grid space is still integrated and interpolated exactly.
+Witness for `k0`: `r_d = lmin` if `k0_d ≤ max(lmin,1)`, `r_d = lmax_d` if `k0_d = lmax`, else `r_d = k0_d + max m_i` over the
+ends `i` of level `≤ k0_d` (`DW.rOf`); `r` is in the index set (`index_set_contains`) because at most two dimensions are
+above `lmin` and two loop values together never exceed `max(lmax) − lmax₀` (`mMax_pair`, `pair_bound`). -/
+theorem dimwise_keeps_initial_of_class (lmin lmax : Nat) (a b : List Rat) (hlen : a.length = b.length)
+    (hd : 1 ≤ a.length) (hl : lmin < lmax) (h2 : 2 ≤ lmax) (hab : ∀ d, d < a.length → a.getD d 0 < b.getD d 0)
+    (hclass : a.length = 2 ∨ lmax ≤ lmin + 2) (cfg : PtCfg) (hv : LoopOK cfg)
+    (ins : List StepIn) (hnr : NoRebalancing ins) :
+    ∃ st, (DW.init lmin lmax a b).run ins = some st ∧ Exact.keepsInitial (st.toExact cfg a b lmax) = true := by
+  have hwf := init_wf lmin lmax a b hlen hd (le_of_lt hl) h2 hab
+  have hn0 := init_nr lmin lmax a b hlen hd (le_of_lt hl) hab
+  obtain ⟨st, h1, h3, h4, h5, h6⟩ := run_nr a b lmax ins _ hnr hwf hn0
+  have hub := run_ub ins _ st (init_ub lmin lmax a b hd (le_of_lt hl)) h1
+  have hdim : st.dim = a.length := h5
+  have hlmin : st.lmin = (lmin : Int) := h6
+  refine ⟨st, h1, ?_⟩
+  apply keepsInitial_of_shape a b lmax st h3 h4 hub cfg hv h2 (by rw [hlmin]; exact_mod_cast hl) hdim.symm
+    (by rw [hdim, hlen]) (fun d hdd => hab d (by rw [← hdim]; exact hdd))
+  intro k0 hk0
+  rcases hclass with h2d | hsp
+  · rw [hdim, h2d] at hk0 ⊢
+    exact twoAbove_dim2 _ _
+  · exact twoAbove_span2 st.dim st.lmin lmax (by rw [hdim]; exact hd) h3.lmin_le
+      (by rw [hlmin]; exact_mod_cast hsp) k0 hk0
+
+/-- the loops of the versions 6, 7 and 8 all satisfy `LoopOK` -/
+theorem loopOK_678 (cfg : PtCfg) (hv : cfg.version = 6 ∨ cfg.version = 7 ∨ cfg.version = 8) : LoopOK cfg := by
+  rcases hv with h | h | h
+  · exact loopOK_6 cfg h
+  · exact loopOK_7 cfg h
+  · exact loopOK_8 cfg h
+
+/-- **versions 6, 7, 8; `dim = 2` or `lmax − lmin ≤ 2`**: every reachable state of every history without rebalancing keeps
+the initial space (the form `∀ st, run = some st → …`) -/
+theorem dimwise_keeps_initial_v678 (lmin lmax : Nat) (a b : List Rat) (hlen : a.length = b.length)
+    (hd : 1 ≤ a.length) (hl : lmin < lmax) (h2 : 2 ≤ lmax) (hab : ∀ d, d < a.length → a.getD d 0 < b.getD d 0)
+    (hclass : a.length = 2 ∨ lmax ≤ lmin + 2) (cfg : PtCfg) (hv : cfg.version = 6 ∨ cfg.version = 7 ∨ cfg.version = 8)
+    (ins : List StepIn) (hnr : NoRebalancing ins) (st : DW) (hrun : (DW.init lmin lmax a b).run ins = some st) :
+    Exact.keepsInitial (st.toExact cfg a b lmax) = true := by
+  obtain ⟨st', h1, h2'⟩ := dimwise_keeps_initial_of_class lmin lmax a b hlen hd hl h2 hab hclass cfg
+    (loopOK_678 cfg hv) ins hnr
+  rw [hrun] at h1
+  rw [Option.some.inj h1]; exact h2'
+
+/-- **version 6 (the default), `dim = 2`**: every reachable state of every history without rebalancing keeps the initial
+space -/
+theorem dimwise_keeps_initial_v6_dim2 (lmin lmax : Nat) (a b : List Rat) (ha : a.length = 2) (hb : b.length = 2)
+    (hl : lmin < lmax) (h2 : 2 ≤ lmax) (hab : ∀ d, d < 2 → a.getD d 0 < b.getD d 0)
+    (cfg : PtCfg) (hv : cfg.version = 6) (ins : List StepIn) (hnr : NoRebalancing ins) (st : DW)
+    (hrun : (DW.init lmin lmax a b).run ins = some st) :
+    Exact.keepsInitial (st.toExact cfg a b lmax) = true := by
+  obtain ⟨st', h1, h2'⟩ := dimwise_keeps_initial_of_class lmin lmax a b (by rw [ha, hb]) (by omega) hl h2
+    (by rw [ha]; exact hab) (Or.inl ha) cfg (loopOK_6 cfg hv) ins hnr
+  rw [hrun] at h1
+  rw [Option.some.inj h1]; exact h2'
+
+/-- **version 6, `lmax − lmin ≤ 2`** (any dimension) -/
+theorem dimwise_keeps_initial_v6_span2 (lmin lmax : Nat) (a b : List Rat) (hlen : a.length = b.length)
+    (hd : 1 ≤ a.length) (hl : lmin < lmax) (h2 : 2 ≤ lmax) (hspan : lmax ≤ lmin + 2)
+    (hab : ∀ d, d < a.length → a.getD d 0 < b.getD d 0)
+    (cfg : PtCfg) (hv : cfg.version = 6) (ins : List StepIn) (hnr : NoRebalancing ins) (st : DW)
+    (hrun : (DW.init lmin lmax a b).run ins = some st) :
+    Exact.keepsInitial (st.toExact cfg a b lmax) = true := by
+  obtain ⟨st', h1, h2'⟩ := dimwise_keeps_initial_of_class lmin lmax a b hlen hd hl h2 hab (Or.inr hspan) cfg
+    (loopOK_6 cfg hv) ins hnr
+  rw [hrun] at h1
+  rw [Option.some.inj h1]; exact h2'
+
+/-- **version 3 with EXACT rounding** (`v3Exact`; the code rounds in floats, which is NOT covered — compare
+`keeps_initial_false_v3_float`), `dim = 2` or `lmax − lmin ≤ 2` -/
+theorem dimwise_keeps_initial_v3_exact (lmin lmax : Nat) (a b : List Rat) (hlen : a.length = b.length)
+    (hd : 1 ≤ a.length) (hl : lmin < lmax) (h2 : 2 ≤ lmax) (hab : ∀ d, d < a.length → a.getD d 0 < b.getD d 0)
+    (hclass : a.length = 2 ∨ lmax ≤ lmin + 2)
+    (ins : List StepIn) (hnr : NoRebalancing ins) (st : DW) (hrun : (DW.init lmin lmax a b).run ins = some st) :
+    Exact.keepsInitial (st.toExact { version := 3 } a b lmax) = true := by
+  obtain ⟨st', h1, h2'⟩ := dimwise_keeps_initial_of_class lmin lmax a b hlen hd hl h2 hab hclass { version := 3 }
+    (loopOK_3 _ rfl v3Exact_ok) ins hnr
+  rw [hrun] at h1
+  rw [Option.some.inj h1]; exact h2'
+
+/-- a two-dimensional history (`lmin = 1`, `lmax = 2`, unit square): step 1 refines `[1/4, 1/2]` of dimension 0, step 2
+`[3/8, 1/2]` of dimension 0 and `[3/4, 1]` of dimension 1 (the history of C04b) -/
+def hist2d : List StepIn :=
+  [⟨[[0, 1, 0, 0], [0, 0, 0, 0]], 1, false, noDec⟩,
+   ⟨[[0, 0, 1, 0, 0], [0, 0, 0, 1]], 1, false, noDec⟩]
+
+/-- non-vacuity: the two-dimensional history above and the three-dimensional counterexample history started from
+`(lmin, lmax) = (2, 4)` instead of `(1, 4)` are covered -/
+example : ∃ st, (DW.init 1 2 [0, 0] [1, 1]).run hist2d = some st ∧
+    Exact.keepsInitial (st.toExact { version := 6 } [0, 0] [1, 1] 2) = true :=
+  dimwise_keeps_initial_of_class 1 2 [0, 0] [1, 1] rfl (by decide) (by decide) (by decide)
+    (by intro d hd; have : d = 0 ∨ d = 1 := by simp at hd; omega
+        rcases this with rfl | rfl <;> simp)
+    (Or.inl rfl) { version := 6 } (loopOK_6 _ rfl) hist2d
+    (by intro i hi; simp [hist2d] at hi; rcases hi with rfl | rfl <;> rfl)
+
+example : ∀ v ∈ [6, 7, 8], ∃ st, (DW.init 2 4 a3 b3).run hist7 = some st ∧
+    Exact.keepsInitial (st.toExact { version := v } a3 b3 4) = true := fun v hv =>
+  dimwise_keeps_initial_of_class 2 4 a3 b3 rfl (by decide) (by decide) (by decide)
+    (by intro d hd; have : d = 0 ∨ d = 1 ∨ d = 2 := by simp [a3] at hd; omega
+        rcases this with rfl | rfl | rfl <;> simp [a3, b3])
+    (Or.inr (by decide)) { version := v } (loopOK_678 _ (by simpa using hv)) hist7
+    (by intro i hi; simp [hist7] at hi; rcases hi with rfl | rfl | rfl | rfl | rfl | rfl <;> rfl)
+
+example : ∃ st, (DW.init 2 4 a3 b3).run hist3 = some st ∧
+    Exact.keepsInitial (st.toExact { version := 3 } a3 b3 4) = true :=
+  dimwise_keeps_initial_of_class 2 4 a3 b3 rfl (by decide) (by decide) (by decide)
+    (by intro d hd; have : d = 0 ∨ d = 1 ∨ d = 2 := by simp [a3] at hd; omega
+        rcases this with rfl | rfl | rfl <;> simp [a3, b3])
+    (Or.inr (by decide)) { version := 3 } (loopOK_3 _ rfl v3Exact_ok) hist3
+    (by intro i hi; simp [hist3] at hi; rcases hi with rfl | rfl | rfl | rfl | rfl <;> rfl)
+
+example : ∃ st, (DW.init 2 4 a3 b3).run hist68 = some st ∧
+    Exact.keepsInitial (st.toExact { version := 6 } a3 b3 4) = true :=
+  dimwise_keeps_initial_of_class 2 4 a3 b3 rfl (by decide) (by decide) (by decide)
+    (by intro d hd; have : d = 0 ∨ d = 1 ∨ d = 2 := by simp [a3] at hd; omega
+        rcases this with rfl | rfl | rfl <;> simp [a3, b3])
+    (Or.inr (by decide)) { version := 6 } (loopOK_6 _ rfl) hist68
+    (by intro i hi; simp [hist68] at hi; rcases hi with rfl | rfl <;> rfl)
 
 end SparseSpace.C04c
